@@ -349,10 +349,39 @@ def verify_history_ingredients(run):
                 Ha["OutputVariable.lock_previous"][v], fn="engine.Engine.process", meta={"replay": RP}))
 
 
+def verify_leaf_methods_keep_no_state(run):
+    """history-freedom of the leaves: the methods on the processing path of terms, norms, hedges and defuzzifiers store nothing on their object
+    (no cache, no `sticky` inferred setting) and write no module-level name - an AST scan of every such method in the package"""
+    src = run.src
+    offenders, n = [], 0
+    for (m, q), nodes in src.functions.items():
+        if m not in ("term", "norm", "hedge", "defuzzifier") or "." not in q:
+            continue
+        meth = q.rsplit(".", 1)[1]
+        if meth not in ("membership", "compute", "hedge", "defuzzify", "tsukamoto", "infer_type", "is_monotonic", "activation_degree", "grouped_terms"):
+            continue
+        for fn in nodes:
+            n += 1
+            for x in ast.walk(fn):
+                tg = x.targets if isinstance(x, ast.Assign) else [x.target] if isinstance(x, (ast.AugAssign, ast.AnnAssign)) else []
+                for t in tg:
+                    for y in ast.walk(t):
+                        if isinstance(y, ast.Attribute) and isinstance(y.ctx, ast.Store) and isinstance(y.value, ast.Name) and y.value.id in ("self", "cls"):
+                            offenders.append(f"{m}.{q}: {ast.unparse(x)[:80]}")
+                if isinstance(x, (ast.Global, ast.Nonlocal)):
+                    offenders.append(f"{m}.{q}: {ast.unparse(x)}")
+    run.add(static("package/leaf_methods_store_nothing_on_their_object", n > 0 and not offenders, f"{n} membership/compute/hedge/defuzzify/tsukamoto/... methods scanned; stores on self: {offenders[:4]}",
+                   fn="term|norm|hedge|defuzzifier", meta={"replay": RP}))
+    # the weighted defuzzifiers are additionally verified to write nothing at all (frame obligations over the heap; shared with C10)
+    from props import C10
+    for cls in ("WeightedAverage", "WeightedSum"):
+        C10.verify_defuzzify(run, cls)
+
+
 def build(run):
     run.assume("A-REAL", "A-NP", "A-PY", "A-MSG", "A-LOG", "A-LISTVAL", "A-ACTVAL", "A-WF", "A-DEEPCOPY", "A-LOADERS")
     plan = [("rule.Rule.load", verify_rule_load), ("rule.RuleBlock.load_rules", verify_block_loaders), ("engine.Engine.restart", verify_restart),
-            ("engine.Engine.__init__", verify_engine_init_loads), ("package/no_custom_copy", verify_no_custom_copy), ("lemma.history_free", verify_history_ingredients)]
+            ("engine.Engine.__init__", verify_engine_init_loads), ("package/no_custom_copy", verify_no_custom_copy), ("lemma.history_free", verify_history_ingredients), ("package/leaf_methods", verify_leaf_methods_keep_no_state)]
     for fq, f in plan:
         try:
             f(run)
